@@ -112,10 +112,15 @@ def gen_base(name, rng, mod):
 
 def random_run(name, rng, mod):
     if name == 'panoc':
-        return c03.gen_run(rng, solver='panoc', nanat=0)
-    if name == 'ocp':
-        return mod.gen_run(rng)
-    return mod.gen_run(rng, nanat=0)
+        op = c03.gen_run(rng, solver='panoc', nanat=0)
+    elif name == 'ocp':
+        op = mod.gen_run(rng)
+    else:
+        op = mod.gen_run(rng, nanat=0)
+    stop = (op.get('stopat', '0'), op.get('stopcb', '0'))
+    S.vary_all(rng, op, name)                  # every parameter, tolerance class, Σ class (the stop point is kept)
+    op['stopat'], op['stopcb'] = stop
+    return op
 
 
 @C.tolerant
@@ -123,8 +128,14 @@ def sweep_ops(name, rng, exe, n_problems, mod=None):
     """Exhaustive stop injection on fixed runs: stop() from inside every event (index 1…T) *and* from inside
     every progress callback (1…#callbacks).  PANOC-OCP: the unstopped run's call names are kept in BASE_CALLS."""
     ops = []
-    for _ in range(n_problems):
+    for i in range(n_problems):
         base = gen_base(name, rng, mod)
+        if i == 0:
+            # the first base run of every solver has many initial step-size backtracks: stop() lands inside that
+            # loop (REQUIRED: `stops_during_initialisation` must be > 0 for every solver)
+            base.update(S.init_sweep_overrides(rng))
+        elif i % 2:
+            S.vary_params(rng, base, name)
         probe = S.Op(base)
         probe['trace'] = '2' if name == 'ocp' else '1'
         try:
@@ -208,7 +219,7 @@ def monitor(op_line, out_line, st, solver=None):
         m = c03_part(solver, op_line, out_line, st)
     if m:
         return m
-    m = c06_loop.monitor(op_line, out_line, st, flavor=flavor)
+    m = LM.own_findings_only(c06_loop.monitor(op_line, out_line, st, flavor=flavor), 'C19', bump)
     if m:
         return m
     m = LM.iterate_consistency(flavor, op_line, out_line, 'C19', bump)
@@ -239,6 +250,8 @@ def monitor(op_line, out_line, st, solver=None):
         m = loop_ocp.tick_bound(op_line, out_line)      # C19_Ocp.ocp_ticks_after_stop on the real run
         if m:
             return m
+        if len(r['cbs']) == 1 and t0 <= T - 1:
+            bump('stops_during_initialisation')          # the loop head makes no problem call: see c05.init_interrupted
         ref = BASE_CALLS.get(base_key(op))
         calls = next((e[1:] for e in evs if e and e[0] == 'calls'), None)
         if ref is None or calls is None:
@@ -287,7 +300,7 @@ def nontrivial(op_line, out_line):
 # ------------------------------------------------------------------ real threads
 
 THREAD_SOLVERS = ['panoc', 'zerofpr', 'pantr', 'fista']
-THREAD_LIB = S.LIB_SUBSET + ['inner/fista.cpp']
+THREAD_LIB = S.LIB_SUBSET + ['inner/fista.cpp', 'outer/internal/alm-helpers.cpp']
 
 
 def build_thread_harness(tsan):
@@ -301,7 +314,19 @@ def build_thread_harness(tsan):
 def thread_ops(rng, n):
     ops = []
     for k in range(n):
-        solver = ('panoc', 'zerofpr', 'panoc', 'pantr', 'panoc', 'fista', 'zerofpr', 'pantr')[k % 8]
+        solver = ('panoc', 'zerofpr', 'alm', 'pantr', 'panoc', 'fista', 'zerofpr', 'pantr', 'alm', 'panoc')[k % 10]
+        if solver == 'alm':
+            import c01
+            p = c01.gen_feasible_problem(rng, convex=True, m=rng.choice([1, 2, 3]))
+            st = S.gen_start(rng, p)
+            ops.append(S.Op({'_op': 'threadstop', 'solver': 'alm', **S.problem_kv(p),
+                             **{k2: S.kvvec(v) for k2, v in st.items()}, 'tol': C.f2h(rng.choice([1e-10, 1e-6])),
+                             'dtol': C.f2h(rng.choice([1e-10, 1e-6])), 'almiter': str(rng.choice([5, 30])),
+                             'maxiter': str(rng.choice([5, 50, 500])), 'mem': str(rng.choice([1, 5])),
+                             'stopeval': str(rng.choice([1, 2, 3, 5, 8, 9, 10, 13, 17, 21, 30, 40, 80, 200])),
+                             'delay_us': str(rng.choice([0, 0, 0, 1, 10, 100])),
+                             'spin': str(rng.choice([0, 200, 2000, 20000]))}).line())
+            continue
         p = S.gen_problem(rng, convex=rng.random() < 0.5)
         st = S.gen_start(rng, p)
         op = S.Op({'_op': 'threadstop', 'solver': solver,
@@ -328,6 +353,8 @@ def thread_monitor(op_line, out_line):
         return 'solver threw'
     op = S.Op.parse(op_line)
     solver = op.get('solver', 'panoc')
+    if solver == 'alm':
+        return thread_monitor_alm(op, r, out_line)
     B = BOUNDS[solver]
     a = [s.split() for s in out_line.split(' ; ') if s.startswith('A ')]
     at_stop, total, in_time = int(a[0][1]), int(a[0][2]), a[0][3] == '1'
@@ -356,6 +383,32 @@ def thread_monitor(op_line, out_line):
     return LM.own_findings_only(c03.monitor(op_line, out_line, {}), 'C19', bump)
 
 
+def thread_monitor_alm(op, r, out_line):
+    """ALM over PANOC, alm.stop() from another thread: ALM looks at its own flag after every inner solve (alm.tpp since
+    /repo 02b663b30) and the inner solver polls at every loop head / step-size / line-search pass, so once stop() has
+    returned at most max(first_poll, after_stop) = 8 further evaluations begin (the rest of the inner solve in flight,
+    or the initialisation + first head of an inner solve that had just been started)."""
+    a = [s.split() for s in out_line.split(' ; ') if s.startswith('A ')]
+    at_stop, total, in_time = int(a[0][1]), int(a[0][2]), a[0][3] == '1'
+    status = r['stats']['status']
+    B = BOUNDS['panoc']
+    after = max(B['after_stop'], B['first_poll'])
+    if status not in ('Interrupted', 'Converged', 'MaxIter', 'MaxTime'):
+        return f'[alm] status {status}'
+    if status == 'Interrupted':
+        bump('thread_interrupted'); bump('thread_interrupted_alm')
+        if at_stop < 0:
+            return '[alm] Interrupted but stop() was not called'
+    else:
+        bump('thread_natural_' + status)
+    if in_time and total - at_stop > after:
+        return (f'[alm] alm.stop() returned when {at_stop} evaluations had begun, the ALM solve made {total - at_stop} '
+                f'more (> {after}) and returned {status}')
+    if in_time and status != 'Interrupted' and total - at_stop > 0:
+        return f'[alm] alm.stop() was called in time, {total - at_stop} evaluations followed, status {status}'
+    return None
+
+
 def thread_stage(rep, broken, tier):
     tsan = tier == 'thorough'
     texe, log = build_thread_harness(tsan)
@@ -363,7 +416,7 @@ def thread_stage(rep, broken, tier):
         broken.append('thread harness does not compile against the working tree: ' + log[-1200:])
         return
     rng = random.Random(C.seed() * 7717 + 19)
-    ops = thread_ops(rng, 64 if tier == 'quick' else 480)
+    ops = thread_ops(rng, 80 if tier == 'quick' else 500)
     env = dict(os.environ, TSAN_OPTIONS='halt_on_error=0 report_signal_unsafe=0 exitcode=0')
     try:
         r = subprocess.run([texe], input='\n'.join(ops) + '\n', stdout=subprocess.PIPE, stderr=subprocess.PIPE,
@@ -394,7 +447,7 @@ def thread_stage(rep, broken, tier):
             bad += 1
             if bad >= 3:
                 break
-    for s in THREAD_SOLVERS:
+    for s in THREAD_SOLVERS + ['alm']:
         if COUNTS.get('thread_interrupted_' + s, 0) == 0:
             broken.append(f'real-thread test never produced an Interrupted {s} run')
 
@@ -418,8 +471,12 @@ def adapters():
     return out
 
 
+COVER = S.Coverage()
+
+
 def solver_monitor(solver, o, h, st):
     before = dict(COUNTS)
+    COVER.add(solver.name, o, h)
     try:
         return monitor(o, h, st, solver=solver)
     finally:
@@ -444,9 +501,14 @@ def main(argv):
             rep.note(f'monitor coverage [{name}]: ' + ', '.join(f'{k}={v}' for k, v in sorted(d.items())))
         rep.note('thread coverage: ' + ', '.join(f'{k}={v}' for k, v in rep.cov['thread_counts'].items()))
         for s in sols:
-            if rep.cov.get('per_solver', {}).get(s.name, {}).get('runs') and \
-                    PER.get(s.name, {}).get('interrupted', 0) == 0:
+            if not rep.cov.get('per_solver', {}).get(s.name, {}).get('runs'):
+                continue
+            if PER.get(s.name, {}).get('interrupted', 0) == 0:
                 broken.append(f'[{s.name}] stop injection never produced an Interrupted run')
+            if PER.get(s.name, {}).get('stops_during_initialisation', 0) == 0:
+                broken.append(f'[{s.name}] no stop request landed during the initialisation (required: the first '
+                              f'sweep base of every solver uses solvers.init_sweep_overrides)')
+        COVER.report(rep, broken, tier, [s.name for s in sols if rep.cov.get('per_solver', {}).get(s.name, {}).get('runs')])
 
     return multiloop.loop_check(
         'C19', argv, monitor=solver_monitor, nontrivial=nontrivial, solvers=sols, extra_stage=extra,
